@@ -123,6 +123,10 @@ pub struct Spec {
     /// block; clones go to the next slot (see `gens::Placed`)
     #[serde(default)]
     pub place: u8,
+    /// with `logger`: the installed logger's own `enabled()` refuses records of the crates under test while
+    /// the global max level still admits them (`log_enabled!` and the level check of `trace!` then disagree)
+    #[serde(default)]
+    pub logger_filter: bool,
     /// which thread executes the run: 0 = the worker's long-lived main thread, 1 = a freshly spawned unnamed
     /// thread (its thread-locals have never been touched), 2 = a freshly spawned thread with a name, 3 = a fresh
     /// thread that executes the run and then executes it once more while it exits (from the destructor of a
